@@ -7,15 +7,19 @@ from .common import cfloat, cnat, clist
 
 MANIFEST = {
     "text": "Coq 8.16 theorems over a tree model of composed models (walk, id-ordered unique priors, instance construction for "
-            "Model/Collection/tuple/arithmetic nodes): parameter count = number of distinct priors, advertised order strictly "
+            "Model/Collection/tuple/binary-arithmetic/unary (-p, abs(p)) nodes): parameter count = number of distinct priors, advertised order strictly "
             "increasing in id, the i-th vector entry is found at the i-th advertised path (structural paths and tuple members; every advertised "
             "path is classified) and at every structural path of the i-th parameter, constants untouched, "
-            "derived and tuple values (members of every kind) computed from the same assignment, frame property, vector / unit-vector / path routes agree "
+            "derived and tuple values (members of every kind) computed from the same assignment, a unary node contributes exactly its operand's "
+            "parameters and holds op(operand value), subtraction as built (a + (-b)), frame property, vector / unit-vector / path routes agree "
             "(any choice of paths, last entry wins); tied to the code by a "
             "bit-exact vm_compute correspondence on generated composition programs (two-sided abstraction) and a direct property oracle",
     "note": "Trusted: Coq kernel + vm_compute; the harness's raw __dict__ abstraction of live model objects and instances; the "
             "composition API itself is compared with the generator's expected tree. Not modelled: AnnotationPriorModel, deferred "
-            "arguments, Array models and the arithmetic forms -, **, neg, abs (oracle only: ModelTree has no node for them), jax pytrees; "
+            "arguments, Array models, the arithmetic forms ** // % and af.Log / af.Log10 (no exact value semantics: oracle only; "
+            "-, neg, abs are ModelTree nodes since ext-tree: NUn, a - b = NBin OAdd a (NUn UNeg b)), a unary form of a float (not "
+            "API-constructible; the model gives IMissing, the code raises AttributeError -- or, below a binary prior whose "
+            "try/except swallows it, yields the operand object), jax pytrees; "
             "value_for of the priors enters the unit route as a table; attribute names of arithmetic priors are read from the live object.",
     "technique": "machine-checked proof in Coq (hand-written tree model) + vm_compute correspondence",
 }
@@ -442,8 +446,36 @@ def classes_of(c):
     return sorted(cl) + ["feature:" + f for f in c["program"]["features"]]
 
 
-def uses_ops2(root):
-    return any_node(root, lambda e: e["t"] == "unary" or (e["t"] == "arith" and e["op"] in ("-", "**")))
+def uses_pow(root):
+    return any_node(root, lambda e: e["t"] == "arith" and e["op"] == "**")
+
+
+def tree_features(t, acc=None, under=None):
+    """Which of the new ModelTree features a sent tree exercises (for the distribution report)."""
+    acc = set() if acc is None else acc
+    k = t["t"]
+    if k == "unary":
+        acc.add("NUn " + t["op"])
+        acc.add("NUn operand:" + t["a"]["t"])
+        if under == "unary":
+            acc.add("NUn under NUn")
+        if under == "tuple":
+            acc.add("NUn as tuple member")
+        tree_features(t["a"], acc, "unary")
+    elif k == "arith":
+        if t["op"] == "+" and t["r"]["t"] == "unary" and t["r"]["op"] == "neg":
+            acc.add("a - b (NBin OAdd a (NUn UNeg b))")
+        if t["op"] == "+" and t["l"]["t"] == "unary" and t["l"]["op"] == "neg" and t["r"]["t"] == "const":
+            acc.add("const - b (NBin OAdd (NUn UNeg b) const)")
+        tree_features(t["l"], acc, "arith")
+        tree_features(t["r"], acc, "arith")
+    elif k == "tuple":
+        for _, c in t["members"]:
+            tree_features(c, acc, "tuple")
+    elif k in ("model", "coll"):
+        for _, c in t["attrs"]:
+            tree_features(c, acc, k)
+    return acc
 
 
 def eval_codes(ctx, header, terms, shard=40):
@@ -502,8 +534,8 @@ def run(ctx):
     ctx.rule = ("composition programs over importable classes (float / tuple (arity 2..13) / nested-class (depth <= 3) / list-valued arguments; "
                 "argument names with '_'), keyword arguments supplied or omitted (config-default priors), whole TuplePriors with members out of "
                 "index order, collections from list/dict/kwargs/append/varargs/__setitem__/raw nested lists, array models (elements assigned out "
-                "of index order; oracle only), shared priors, float and int constants, arithmetic priors (+ * / in the Coq model; - ** neg abs "
-                "oracle only) also as tuple members, extra attributes, copies of components with a different fixed value, edit-after-freeze "
+                "of index order; oracle only), shared priors, float and int constants, arithmetic priors (+ * / - neg abs, nested, in the Coq "
+                "model; ** oracle only) also as tuple members, extra attributes, copies of components with a different fixed value, edit-after-freeze "
                 "histories; priors created in an order unrelated to path order; one vector within limits, one unit vector and one dictionary of "
                 "freely chosen paths per program phase. Non-trivial: >= 2 priors and at least one of shared prior, nesting, tuple, arithmetic, "
                 "constant. Distinct = distinct (program, vector).")
@@ -581,10 +613,7 @@ def run(ctx):
             dz = has_division_by_zero(root, vmap)
             if dz:
                 ctx.hist("instance-comparison-skipped", "division-by-zero")
-            ops2 = uses_ops2(root)
-            if ops2:
-                ctx.hist("two-sided-abstraction", "skipped: - ** neg abs have no ModelTree node (oracle only)")
-            elif not MG.same_tree(MG.expected_tree(root), ro["tree"]):
+            if not MG.same_tree(MG.expected_tree(root), ro["tree"]):
                 ctx.oracle["failures"] += 1
                 ctx.failure("correspondence", "[%s] the composition API built a different object graph than the program denotes" % phase,
                             c, classes=cls, impl=ro["tree"], broken={"kind": "correspondence", "name": "two-sided abstraction"})
@@ -596,9 +625,11 @@ def run(ctx):
                 ctx.oracle["failures"] += 1
                 ctx.failure("oracle", "[%s] %s" % (phase, msg), c, classes=cls,
                             impl={k: ro[k] for k in ("paths", "upaths", "count", "ids", "inst", "pv", "inst_paths_any", "vec_from_unit", "inst_unit")})
-            if ops2 or not MG.tree_ok_for_model(ro["tree"]):
-                ctx.hist("coq-correspondence", "not sent: array / - ** neg abs / reserved attribute name")
+            if not MG.tree_ok_for_model(ro["tree"]):
+                ctx.hist("coq-correspondence", "not sent: array / ** / reserved attribute name")
                 continue
+            for f_ in sorted(tree_features(ro["tree"])):
+                ctx.hist("coq-correspondence:unary-features", f_)
             ok_inst = "ok" in ro["inst"] and "ok" in ro["inst_paths_any"]
             if dz or not ok_inst:
                 coq_cases.append(coq_case(ro, vec_hex, cmp_inst=False))
